@@ -38,7 +38,7 @@ func (c08) Meta() fw.Meta {
 			"CLI commands read the wall clock; the oracle uses the now: value the command printed (per file), so the comparison is exact at that instant",
 			"value equality is numeric (+0 == -0), as the command's own difference test; NaN equals NaN",
 		},
-		Obligations: []string{"slow_first_file_runs", "glob_copies_with_a_listing_that_breaks_off", "requested_header_differs_from_source_header", "copies_ok", "slots_compared", "slots_copied", "coarser_matched_finer_differed", "dest_absent_created", "dest_absent_nothing_to_copy", "narrow_window", "window_beyond_finest_retention", "single_archive_selection", "glob_mode_3plus_files", "copy_nan_mode", "layout_mismatch_rejected", "repeat_idempotent", "diff_after_copy_clean", "source_unchanged_checks", "symlinked_source_in_glob", "unclean_base_spelling", "glob_failing_file_reported"},
+		Obligations: []string{"slow_first_file_runs", "sources_with_an_old_modification_time", "glob_copies_with_a_listing_that_breaks_off", "requested_header_differs_from_source_header", "copies_ok", "slots_compared", "slots_copied", "coarser_matched_finer_differed", "dest_absent_created", "dest_absent_nothing_to_copy", "narrow_window", "window_beyond_finest_retention", "single_archive_selection", "glob_mode_3plus_files", "copy_nan_mode", "layout_mismatch_rejected", "repeat_idempotent", "diff_after_copy_clean", "source_unchanged_checks", "symlinked_source_in_glob", "unclean_base_spelling", "glob_failing_file_reported"},
 		Workers:     12,
 	}
 }
@@ -199,6 +199,15 @@ func (c08) Run(c *fw.Ctx) {
 		default:
 			writeFixture(dp, l, genContent(r, l, now, 0.5), now)
 		}
+	}
+	// the sources' modification times are no part of their contents: with an explicit window every 2nd case makes them
+	// look untouched for two days (restored from a backup, written through mmap, clock skew of a file server)
+	if sc.Until != 0 && c.Index%2 == 0 {
+		old := time.Now().Add(-48 * time.Hour)
+		for _, rel := range sc.Files {
+			os.Chtimes(filepath.Join(srcBase, rel), old, old)
+		}
+		c.Count("sources_with_an_old_modification_time", 1)
 	}
 	srcBefore := map[string][]byte{}
 	for _, rel := range sc.Files {
